@@ -162,8 +162,6 @@ val nat_of_ascii : char -> nat
 
 val map : ('a1 -> 'a2) -> 'a1 list -> 'a2 list
 
-val fold_left : ('a1 -> 'a2 -> 'a1) -> 'a2 list -> 'a1 -> 'a1
-
 val forallb : ('a1 -> bool) -> 'a1 list -> bool
 
 module Z :
@@ -477,10 +475,11 @@ val literal_at : char list -> char list -> (literal * char list) option
 
 val boundary_after : char list -> bool
 
-val replace_word_aux :
-  char list -> char list -> nat -> bool -> char list -> char list
+val match_name :
+  (char list * char list) list -> char list -> (char list * nat) option
 
-val replace_word : char list -> char list -> char list -> char list
+val replace_words_aux :
+  (char list * char list) list -> nat -> bool -> char list -> char list
 
 val subst_line : (char list * char list) list -> char list -> char list
 
